@@ -62,17 +62,25 @@ def boundary_values(limit: int, tier: str) -> list[int]:
 
 def count_values(spec: fr.FieldSpec, limit: int, unit: int, tier: str) -> list[int]:
     sw = 255 // unit  # extended-length switch
-    vs = {0, 1, 2, sw, sw + 1, 4000 // unit, 4096 // unit + 1}
+    vs = {1, 2, sw, sw + 1, 4000 // unit, 4096 // unit + 1}
     if spec.slow:
         if tier == 'thorough':
             vs |= {2000}
     else:
-        vs |= {limit - 1, limit, limit + 1, (70000 + unit - 1) // unit}
+        # around what still leaves room for the rest of a 65535-byte UPDATE (other attributes take 16 to 28 bytes)
+        vs |= {limit - 1, limit, limit + 1, (70000 + unit - 1) // unit, (65535 - 23 - 8 - 160) // unit, (65535 - 23 - 8 - 60) // unit, (65535 - 23 - 8 - 12) // unit + 1}
     return sorted(vs)
 
 
 def cls_of(v: int, limit: int) -> str:
     return 'in-range' if v < limit else 'over-range'
+
+
+# canonical boundary classes (known-findings matching): the ten odd value texts fall in two
+CANON_CLASS = {
+    'negative': 'not-a-number', 'non-numeric': 'not-a-number', 'empty': 'not-a-number', 'float': 'not-a-number', 'exponent': 'not-a-number',
+    'hex': 'other-number-syntax', 'plus-sign': 'other-number-syntax', 'leading-zeros': 'other-number-syntax', 'unicode-digit': 'other-number-syntax', 'separator': 'other-number-syntax', 'asdot': 'other-number-syntax',
+}
 
 
 # ---------------------------------------------------------------------------------------------
@@ -109,11 +117,13 @@ def prime(rig: fr.Rig, kind: str) -> None:
 
 def run_entries(rig: fr.Rig, kind: str, text: str, entries: tuple[str, ...]) -> dict[str, Any]:
     out: dict[str, Any] = {}
-    if 'text' in entries and kind in ('route', 'attributes'):
-        out['text'] = rig.parse_text(text)
     if 'api' in entries:
         prime(rig, kind)
         out['api'] = rig.api_call(kind, text)
+        if out['api'].status == 'hangs':  # every further entry point would cost another timeout
+            return out
+    if 'text' in entries and kind in ('route', 'attributes'):
+        out['text'] = rig.parse_text(text)
     if 'handler' in entries:
         prime(rig, kind)
         out['handler'] = rig.handler_call(kind, text)
@@ -150,7 +160,7 @@ def exercise(rig: fr.Rig, case: Case, routes: list) -> None:
             case.shapes.append(rec)
             continue
         if not msgs:
-            rec['encode_exc'] = 'no message produced'
+            rec['nothing_sent'] = True
             case.shapes.append(rec)
             continue
         try:
@@ -198,6 +208,7 @@ class Sweep:
         self.seen_fail: dict[str, Failure] = {}
         self.limits: dict[str, int] = {}
         self.widths: dict[str, int] = {}
+        self.decoder_seen: set = set()
 
     # -- Lean side ------------------------------------------------------------------------------
     def load_limits(self) -> None:
@@ -219,7 +230,8 @@ class Sweep:
 
     # -- failures ----------------------------------------------------------------------------
     def fail(self, case: Case, session: str, fault: str, what: str, field: str | None = None, cls: str | None = None) -> None:
-        canon = {'field': field or case.spec.name, 'class': cls or case.cls, 'session': session, 'fault': fault}
+        c = cls or case.cls
+        canon = {'field': field or case.spec.name, 'class': CANON_CLASS.get(c, c), 'session': session, 'fault': fault}
         key = json.dumps(canon, sort_keys=True)
         self.ctx.count('oracle-fail:' + fault)
         if key in self.seen_fail:
@@ -245,110 +257,190 @@ class Sweep:
 
     # -- verdicts (after the Lean batch) --------------------------------------------------------
     def judge(self, case: Case, lean: dict[str, str]) -> None:
+        """At most ONE failure per case: the root-most of what was observed (a hang before an
+        exception, an exception before a wrong acceptance, a wrong acceptance before its symptoms)."""
         ctx = self.ctx
         spec = case.spec
         out = case.out
-        # 1. no entry point answers with an exception
-        for name, o in out.items():
-            if name == 'handler':
-                if o[0] == 'raised':
-                    self.fail(case, 'all', 'raises', f'API handler for "{case.text[:160]}" let {o[2]} escape: the client gets no answer')
-                elif o[0] == 'silent':
-                    self.fail(case, 'all', 'no-answer', f'API handler for "{case.text[:160]}" answered neither done nor error')
-                elif o[0] == 'error' and o[2].startswith('Unexpected error'):
-                    ctx.count('handler:catch-all-reply')
-                continue
-            oc = o[0] if name == 'file' else o
-            if oc.status == 'raised':
-                where = {'text': 'Configuration.parse_route_text', 'api': 'API.api_' + {'flow6': 'flow'}.get(spec.kind, spec.kind), 'file': 'Configuration.reload'}[name]
-                self.fail(case, 'all', 'raises', f'{where} raised {oc.detail} on "{case.text[:160]}" (not a refusal with an error message)')
-        if 'file' in out:
-            oc, info = out['file']
-            if oc.status == 'refused' and info.get('generic'):
-                ctx.count('file:refused-by-catch-all')
-                self.fail(case, 'all', 'raises', f'configuration file: the definition "{case.text[:120]}" is only stopped by the catch-all of Configuration.reload: {info.get("message", "")[:160]!r}')
-            if oc.status == 'refused' and not info.get('has_line'):
-                self.fail(case, 'all', 'file-error-without-line', f'configuration file refused without a line: {info.get("message", "")[:160]!r}')
-        # entry points must agree (they share the parser)
-        sts = {name: (o[0].status if name == 'file' else o.status) for name, o in out.items() if name != 'handler'}
-        if len(set(sts.values())) > 1 and 'raised' not in sts.values():
-            self.fail(case, 'all', 'entry-points-differ', f'"{case.text[:160]}": {sts}')
+        text = case.text[:160]
+        found: list[tuple[int, str, str, str]] = []  # (priority, session, fault, what)
+
+        def st(name: str) -> str | None:
+            return self.st(out, name)
+
+        def detail(name: str) -> str:
+            o = out[name]
+            return o[2] if name == 'handler' else (o[0] if name == 'file' else o).detail
+
+        where = {'text': 'Configuration.parse_route_text', 'api': 'API.api_' + {'flow6': 'flow'}.get(spec.kind, spec.kind), 'file': 'Configuration.reload', 'handler': 'the API command handler'}
+        for name in ('api', 'text', 'file', 'handler'):
+            if st(name) == 'hangs':
+                found.append((0, 'all', 'hangs', f'{where[name]} does not return on "{text}"'))
+        for name in ('api', 'text', 'file'):
+            if st(name) == 'raised':
+                found.append((1, 'all', 'raises', f'{where[name]} raised {detail(name)} on "{text}" (not a refusal with an error message)'))
+        if st('handler') == 'error' and detail('handler').startswith('Unexpected error'):
+            ctx.count('handler:catch-all-reply')
+        if st('handler') == 'silent':
+            found.append((1, 'all', 'no-answer', f'the API command handler answered neither done nor error for "{text}"'))
 
         routes = accepted_routes(out)
         accepted = routes is not None
         api = out.get('api')
-        refused = api is not None and (api.status == 'refused' or (api.status == 'ok' and not accepted))
+        refused = api is not None and (api.status == 'refused' or (api.status == 'ok' and st('handler') == 'error'))
         value = case.value
         lname = spec.name + ('4' if spec.sess else '')
         fits = None
         if value is not None:
             fits = lean.get(f'fits {lname} {value}') == '1'
+            if fits and spec.count is not None:
+                fits = self.sendable(case, lean)
+            if spec.count is not None:
+                # the boundary that matters for a count is "can be sent"
+                case.cls = 'in-range' if fits else ('over-range' if fits is False else 'room-depends-on-session')
+        if fits is None and value is not None:
+            # no verdict on acceptance; only: no exception, and what is sent is right
+            ctx.count('count-in-the-undecided-band')
+            if not any(self.st(out, n) in ('raised', 'hangs') for n in out):
+                return
         plain = case.cls in ('in-range', 'over-range')
-
-        # 2. acceptance <=> fits (plain decimal values)
-        if plain and refused and fits:
-            why = api.detail if api.status == 'refused' else out['handler'][2]
-            self.fail(case, 'all', 'refused-fits', f'{spec.name} = {value if value < 2**70 else "2^%d.." % value.bit_length()} fits the wire format (limit {self.limit_of(spec)}) and is refused: {why[:120]!r}')
-        if not accepted:
-            if plain and not fits and refused:
-                ctx.count('agree:refused-unfit')
-            return
-        # 3. accepted: it must encode everywhere and carry the value
+        shown = value if (value is None or value < 2**70) else f'2^{value.bit_length() - 1}..'
+        # the extended-length bit of a generic attribute's flags is not the writer's to choose: it follows the length
+        wire_value = (value & 0xEF) if (spec.name == 'attrFlag' and value is not None) else value
+        present = [r for r in case.shapes if r.get('present', True)]
         enc_bad = [r for r in case.shapes if 'encode_exc' in r]
-        if value is None:
-            what = f'"{case.text[:160]}" is accepted although "{case.vtext}" is no value of {spec.name}'
-            sent = sorted({str(r.get('wire')) for r in case.shapes if r.get('present')})
-            self.fail(case, 'all', 'accepted-non-value', what + (f'; sent {sent[:3]}' if not enc_bad else f'; encoding raises {enc_bad[0]["encode_exc"]}'))
-            return
-        if not fits:
+        nothing = [r for r in present if r.get('nothing_sent')]
+
+        if st('handler') == 'raised':
+            # the parser accepted; the handler died on what it accepted (no catch-all in the flow / vpls handlers)
+            pr = 3 if (accepted is False and api is not None and api.status == 'ok' and value is not None and not fits) else 1
+            found.append((pr, 'all', 'raises', f'the API command handler let {detail("handler")} escape for "{text}": the client gets no answer at all'))
+
+        if plain and refused and fits:
+            why = api.detail if api.status == 'refused' else detail('handler')
+            found.append((2, 'all', 'refused-fits', f'{spec.name} = {shown} fits the wire format (limit {self.limit_of(spec)}) and is refused: {why[:120]!r}; text "{text}"'))
+        api_ok = api is not None and api.status == 'ok'
+        if api_ok and (accepted or st('handler') == 'raised'):
+            if value is None:
+                sent = sorted({str(r.get('wire')) for r in present})
+                how = f'encoding raises {enc_bad[0]["encode_exc"]}' if enc_bad else f'sent {sent[:3]}'
+                found.append((2, 'all', 'accepted-non-value', f'"{text}" is accepted although "{case.vtext}" is no value of {spec.name}; {how}'))
+            elif not fits:
+                if enc_bad:
+                    how = f'accepted at parse time, then messages() raises {enc_bad[0]["encode_exc"]}'
+                elif st('handler') == 'raised':
+                    how = f'accepted by the parser, then the API command handler dies with {detail("handler")}'
+                elif nothing and len(nothing) == len(present):
+                    how = 'accepted, and no UPDATE at all is produced for it on any session (silently dropped)'
+                else:
+                    sent = sorted({str(r.get('wire')) for r in present})
+                    seen = sorted({str(r.get('seen')) for r in present if 'seen' in r})
+                    how = f'accepted and sent as {sent[:2]} (read back as {seen[:2]}): wrapped / truncated'
+                found.append((2, session_label(enc_bad, case.shapes) if enc_bad else 'all', 'accepted-unfit', f'{spec.name} = {shown} cannot be sent (limit {self.limit_of(spec)}): {how}; text "{case.text[:120]}"'))
+
+        if accepted and value is not None and fits:
+            ctx.count('agree:accepted-fit')
             if enc_bad:
-                what = f'accepted at parse time, then messages() raises {enc_bad[0]["encode_exc"]}'
-            else:
-                sent = sorted({str(r.get('wire')) for r in case.shapes if r.get('present')})
-                seen = sorted({str(r.get('seen')) for r in case.shapes if r.get('present') and 'seen' in r})
-                what = f'accepted and sent as {sent[:2]} (read back as {seen[:2]}): wrapped / truncated'
-            shown = value if value < 2**70 else f'2^{value.bit_length() - 1}..'
-            self.fail(case, session_label(enc_bad, case.shapes) if enc_bad else 'all', 'accepted-unfit', f'{spec.name} = {shown} does not fit the wire format (limit {self.limit_of(spec)}): {what}; text "{case.text[:120]}"')
-            return
-        ctx.count('agree:accepted-fit')
-        if enc_bad:
-            self.fail(case, session_label(enc_bad, case.shapes), 'encode-raises', f'{spec.name} = {value} accepted, fits, and messages() raises {enc_bad[0]["encode_exc"]} on {enc_bad[0]["shape"]}')
-        dec_bad = [r for r in case.shapes if 'decode_exc' in r or 'walk_exc' in r]
-        if dec_bad:
-            r = dec_bad[0]
-            self.fail(case, session_label(dec_bad, case.shapes), 'sent-malformed', f'{spec.name} = {value}: what is sent on {r["shape"]} cannot be read back: {r.get("decode_exc") or r.get("walk_exc")}')
-        differ = []
-        for r in case.shapes:
-            if 'encode_exc' in r or 'decode_exc' in r or 'walk_exc' in r or not r['present']:
-                continue
-            ln = spec.name + (('4' if r['kind'] == 'asn4' else '2') if spec.sess else '')
-            w = r.get('wire')
-            if w is None:
-                differ.append((r, 'the field is not on the wire'))
-                continue
-            wb = fr.pad(bytes.fromhex(w), self.widths[ln])
-            got = lean.get(f'dec {ln} {wb.hex()}')
-            if got != str(value):
-                differ.append((r, f'reference decoder reads {got} from {w}'))
-                continue
-            if 'seen' in r and r['seen'] != value:
-                differ.append((r, f'ExaBGP reads back {r["seen"]} ({r.get("seen_text", "")[:120]})'))
-                continue
-            if spec.name == 'extAdmin' and value >= 65536 and r.get('ext_type') is not None and (r['ext_type'] & 0x3F) != 0x02:
-                differ.append((r, f'the 4-byte AS number is sent with extended-community type 0x{r["ext_type"]:02x} (IPv4-address-specific), RFC 5668 says 0x02: a receiver reads an IPv4 address'))
-                continue
-            # correspondence with the model's encoder
-            want = lean.get(f'enc {ln} {value}')
-            if want is not None and want != wb.hex():
-                if self.ctx.driver_ok and len(ctx.disagreements) < 20:
-                    ctx.disagreements.append(Disagreement('fields-encode', case.replay() | {'shape': r['shape']}, want, wb.hex()))
-            else:
-                ctx.count('agree:wire-bytes')
-        if differ:
-            r, why = differ[0]
-            self.fail(case, session_label([d[0] for d in differ], case.shapes), 'value-differs', f'{spec.name} = {value} accepted; {why} on {r["shape"]}; text "{case.text[:120]}"')
-        else:
+                found.append((4, session_label(enc_bad, case.shapes), 'encode-raises', f'{spec.name} = {shown} accepted, fits, and messages() raises {enc_bad[0]["encode_exc"]} on {enc_bad[0]["shape"]}; text "{text}"'))
+            if nothing:
+                if len(nothing) == len(present):
+                    found.append((4, 'all', 'nothing-sent', f'{spec.name} = {shown} accepted and fits, but no UPDATE at all is produced on any session; text "{text}"'))
+                else:
+                    ctx.count('dropped-on-small-session(C09)', len(nothing))
+            dec_bad = [r for r in case.shapes if 'walk_exc' in r]
+            if dec_bad:
+                r = dec_bad[0]
+                found.append((5, session_label(dec_bad, case.shapes), 'sent-malformed', f'{spec.name} = {shown}: what is sent on {r["shape"]} is not a well-formed UPDATE: {r.get("walk_exc")}; text "{text}"'))
+            differ = []
+            for r in present:
+                if 'encode_exc' in r or 'walk_exc' in r or r.get('nothing_sent'):
+                    continue
+                ln = spec.name + (('4' if r['kind'] == 'asn4' else '2') if spec.sess else '')
+                w = r.get('wire')
+                if w is None:
+                    differ.append((r, 'the field is not on the wire'))
+                    continue
+                wb = fr.pad(bytes.fromhex(w), self.widths[ln])
+                got = lean.get(f'dec {ln} {wb.hex()}')
+                if got != str(wire_value):
+                    differ.append((r, f'the reference decoder reads {got} from {w}'))
+                    continue
+                # the wire is right by the reference decoder: what ExaBGP's own decoder makes of it is
+                # the decoder's business (properties C02 / C15), noted and not held against the text parser
+                if 'decode_exc' in r:
+                    self.decoder_note(spec, value, f'Message.unpack raises {r["decode_exc"]}', r)
+                elif 'seen' in r:
+                    seen = r['seen']
+                    ok = (value in seen) if isinstance(seen, list) else seen == value
+                    if not ok:
+                        self.decoder_note(spec, value, f'ExaBGP reads back {seen} ({r.get("seen_text", "")[:100]})', r)
+                if spec.name == 'extAdmin' and value >= 65536 and r.get('ext_type') is not None and (r['ext_type'] & 0x3F) != 0x02:
+                    differ.append((r, f'the 4-byte AS number is sent with extended-community type 0x{r["ext_type"]:02x} (IPv4-address-specific) where RFC 5668 says 0x02: a receiver reads the IPv4 address {".".join(str(b) for b in value.to_bytes(4, "big"))}'))
+                    continue
+                want = lean.get(f'enc {ln} {wire_value}')
+                if want is not None and want != wb.hex():
+                    if len(ctx.disagreements) < 20:
+                        ctx.disagreements.append(Disagreement('fields-encode', case.replay() | {'shape': r['shape']}, want, wb.hex()))
+                else:
+                    ctx.count('agree:wire-bytes')
+            if differ:
+                r, why = differ[0]
+                found.append((6, session_label([d[0] for d in differ], case.shapes), 'value-differs', f'{spec.name} = {shown} accepted; {why} on {r["shape"]}; text "{case.text[:120]}"'))
+        elif plain and not fits and refused and not found:
+            ctx.count('agree:refused-unfit')
+
+        # a configuration file: refused with a message that names a line, by the parser and not by the catch-all
+        if 'file' in out and not found:
+            oc, info = out['file']
+            if oc.status == 'refused' and info.get('generic'):
+                ctx.count('file:refused-by-catch-all')
+                found.append((7, 'all', 'raises', f'configuration file: "{text}" is stopped only by the catch-all of Configuration.reload, not by the parser: {info.get("message", "")[:160]!r}'))
+            elif oc.status == 'refused' and not info.get('has_line'):
+                found.append((7, 'all', 'file-error-without-line', f'configuration file refused without a line: {info.get("message", "")[:160]!r}'))
+        if not found:
+            sts = {name: st(name) for name in out if name != 'handler'}
+            if len(set(sts.values())) > 1:
+                found.append((8, 'all', 'entry-points-differ', f'"{text}": {sts}'))
+        if found:
+            found.sort(key=lambda x: x[0])
+            _, session, fault, what = found[0]
+            self.fail(case, session, fault, what)
+        elif accepted and value is not None and fits:
             ctx.nontrivial({'field': spec.name, 'note': spec.note, 'kind': spec.kind, 'v': str(value)})
+        elif not accepted:
+            ctx.count('refused-with-message')
+
+    @staticmethod
+    def st(out: dict, name: str) -> str | None:
+        o = out.get(name)
+        if o is None:
+            return None
+        if name == 'handler':
+            return o[0]
+        return (o[0] if name == 'file' else o).status
+
+    def decoder_note(self, spec: fr.FieldSpec, value: int, what: str, r: dict) -> None:
+        self.ctx.count('real-decoder-differs(C02/C15)')
+        key = (spec.name, spec.note, what.split('(')[0][:60])
+        if key not in self.decoder_seen and len(self.decoder_seen) < 12:
+            self.decoder_seen.add(key)
+            self.ctx.notes.append(f'wire correct by the reference decoder, ExaBGP decoder differs: {spec.name}{"/" + spec.note if spec.note else ""} = {value} on {r["shape"]}: {what} [w={r.get("wire")}]')
+
+    def sendable(self, case: Case, lean: dict[str, str]) -> bool | None:
+        """A count that fits its length field must also leave room for the UPDATE around it (65535 at most).
+        True: fits with 160 bytes to spare for the other attributes and the NLRI (must be accepted);
+        False: does not fit even beside the smallest mandatory attributes (must be refused);
+        None: in between — whether it can be sent depends on the session and the route, no verdict."""
+        size = case.value * self.unit(case.spec)
+        if lean.get(f'msgfits 65535 {size + 4 + 12} 4') == '0':
+            return False
+        if lean.get(f'msgfits 65535 {size + 4 + 160} 4') == '1':
+            return True
+        return None
+
+    @staticmethod
+    def unit(spec: fr.FieldSpec) -> int:
+        return {'attrLen': 1, 'communitiesCount': 4, 'clusterCount': 4, 'largeCommunitiesCount': 12, 'extCommunitiesCount': 8}[spec.name]
 
 
 # ---------------------------------------------------------------------------------------------
@@ -403,18 +495,22 @@ for _t in ['rd abc label 3', 'rd : label 3', 'rd 1 label 3', 'rd 1:2:3 label 3',
     JUNK.append(('route', 'malformed-value', 'route 10.0.0.0/24 next-hop 1.2.3.4 ' + _t))
 for _t in ['route 10.0.0.1/24 next-hop 1.2.3.4', 'route 10.0.0/24 next-hop 1.2.3.4', 'route 10.0.0.256/32 next-hop 1.2.3.4', 'route bogus next-hop 1.2.3.4', 'route /24 next-hop 1.2.3.4', 'route 10.0.0.0/24/24 next-hop 1.2.3.4', 'route ::/64/1 next-hop ::1', 'route 1:2:3:4:5:6:7:8:9/64 next-hop ::1']:
     JUNK.append(('route', 'malformed-prefix', _t))
-for _t in ['attributes', 'attributes nlri', 'attributes next-hop 1.2.3.4 nlri', 'attributes med 5 nlri 10.0.0.0/24', 'attributes next-hop 1.2.3.4 med 5 nlri bogus', 'attributes next-hop 1.2.3.4 med 5 nlri 10.0.0.0/24 ::/0', 'attributes next-hop 1.2.3.4 nlri 10.0.0.0/24 nlri 10.0.1.0/24', 'attributes next-hop 1.2.3.4 med nlri 10.0.0.0/24']:
+for _t in ['attributes', 'attributes nlri', 'attributes next-hop 1.2.3.4 nlri', 'attributes med 5 nlri 10.0.0.0/24', 'attributes next-hop 1.2.3.4 med 5 nlri bogus', 'attributes next-hop 1.2.3.4 nlri 10.0.0.0/24 nlri 10.0.1.0/24', 'attributes next-hop 1.2.3.4 med nlri 10.0.0.0/24']:
     JUNK.append(('attributes', 'missing-value', _t))
 
 
-VOCAB_KW = ['next-hop', 'med', 'local-preference', 'community', 'large-community', 'extended-community', 'as-path', 'label', 'rd', 'path-information', 'aggregator', 'originator-id', 'cluster-list', 'aigp', 'origin', 'attribute', 'split', 'atomic-aggregate', 'withdraw', 'name', 'watchdog', 'bgp-prefix-sid']
-VOCAB_VAL = ['0', '1', '255', '256', '65535', '65536', '1048576', '4294967295', '4294967296', '18446744073709551616', '-1', 'x', '1.2.3.4', '1.2.3.256', '::1', '1:1', '65536:1', '1:65536', '1:1:1', '4294967296:1:1', 'target:1:1', 'target:65536:65536', '1.2.3.4:5', '1:1.2.3.4', '0x10', '0x99', '0xc0', '0x0102', 'igp', '/25', '[', ']', '(', ')', ',', '{', '}', 'self']
+# bgp-prefix-sid is left to the junk stream: its parser loops on an unclosed bracket and every hang costs a watchdog timeout
+VOCAB_KW = ['med', 'local-preference', 'community', 'large-community', 'extended-community', 'as-path', 'label', 'rd', 'path-information', 'aggregator', 'originator-id', 'cluster-list', 'aigp', 'origin', 'attribute', 'split', 'atomic-aggregate', 'withdraw', 'name', 'watchdog']
+VOCAB_VAL = ['0', '1', '255', '256', '65535', '65536', '1048576', '4294967295', '4294967296', '18446744073709551616', '-1', 'x', '1.2.3.4', '1.2.3.256', '1:1', '65536:1', '1:65536', '1:1:1', '4294967296:1:1', 'target:1:1', 'target:65536:65536', '1.2.3.4:5', '1:1.2.3.4', '0x10', '0x99', '0xc0', '0x0102', 'igp', '/25', '[', ']', '(', ')', ',', '{', '}', 'self']
 
 
 def gen_soup(rng, n_tokens: int) -> str:
-    toks = ['route', rng.choice(['10.0.0.0/24', '10.0.0.0/24', '::/0', '0.0.0.0/0', '10.0.0.0/33', '10.0.0.0'])]
+    pfx = rng.choice(['10.0.0.0/24', '10.0.0.0/24', '::/0', '0.0.0.0/0', '10.0.0.0/33', '10.0.0.0'])
+    toks = ['route', pfx]
     if rng.random() < 0.8:
-        toks += ['next-hop', rng.choice(['1.2.3.4', '1.2.3.4', '::1', 'self'])]
+        # the next hop of the family of the prefix: a route whose next hop is of the other family is a
+        # question of what was negotiated (RFC 8950), not of the text
+        toks += ['next-hop', rng.choice(['::1', 'self'] if ':' in pfx else ['1.2.3.4', '1.2.3.4', 'self'])]
     for _ in range(n_tokens):
         toks.append(rng.choice(VOCAB_KW) if rng.random() < 0.45 else rng.choice(VOCAB_VAL))
     return ' '.join(toks)
@@ -441,16 +537,37 @@ def abstract(tok: str) -> str:
     return 'W'
 
 
+KEYWORDS = set(VOCAB_KW) | {'next-hop', 'bgp-prefix-sid', 'bgp-prefix-sid-srv6', 'route-distinguisher', 'nlri', 'endpoint', 'base', 'offset', 'size', 'route', 'attributes', 'vpls', 'flow'}
+
+
+def culprit(kind: str, text: str) -> str:
+    """The last grammar keyword of a (shrunk) failing text: what the failure is filed under."""
+    if kind in ('flow', 'flow6'):
+        m = re.findall(r'(destination|source|protocol|next-header|port|destination-port|source-port|icmp-type|icmp-code|tcp-flags|packet-length|dscp|traffic-class|fragment|flow-label|rate-limit|redirect|mark|discard|then|match)', text)
+        return 'flow ' + (m[-1] if m else 'route')
+    if kind == 'vpls':
+        return 'vpls'
+    last = kind
+    for t in text.split(' '):
+        if t in KEYWORDS:
+            last = t
+    return last
+
+
 def junk_outcome(rig: fr.Rig, kind: str, text: str) -> tuple[str, str]:
     """('ok'|'refused'|<fault>, detail) over every entry point and, when accepted, every session shape."""
     out = run_entries(rig, kind, text, ('text', 'api', 'handler'))
     for name, o in out.items():
         if name == 'handler':
+            if o[0] == 'hangs':
+                return 'hangs', 'handler does not return'
             if o[0] == 'raised':
                 return 'raises', f'handler: {o[2]}'
             if o[0] == 'silent':
                 return 'no-answer', 'handler answered neither done nor error'
             continue
+        if o.status == 'hangs':
+            return 'hangs', f'{name}: the parser does not return'
         if o.status == 'raised':
             return 'raises', f'{name}: {o.detail}'
     routes = accepted_routes(out)
@@ -473,7 +590,11 @@ def shrink_tokens(rig: fr.Rig, kind: str, text: str, fault: str) -> str:
     toks = text.split(' ')
     keep = 2 if kind == 'route' else 1
     i = len(toks) - 1
+    tries = 0
     while i >= keep:
+        tries += 1
+        if fault == 'hangs' and tries > 6:
+            break
         cand = toks[:i] + toks[i + 1 :]
         if junk_outcome(rig, kind, ' '.join(cand))[0] == fault:
             toks = cand
@@ -491,7 +612,7 @@ def load_corpus() -> list[dict]:
 
 def spec_by(name: str, note: str = '', kind: str | None = None) -> fr.FieldSpec:
     for s in fr.FIELDS:
-        if s.name == name and s.note == note and (kind is None or s.kind == kind):
+        if s.name == name and (not note or s.note == note) and (kind is None or s.kind == kind):
             return s
     raise KeyError(name)
 
@@ -508,7 +629,7 @@ def build_cases(sw: Sweep, tier: str) -> list[tuple[Case, tuple[str, ...]]]:
     for spec in fr.FIELDS:
         limit = sw.limit_of(spec)
         if spec.count is not None:
-            unit = {'attrLen': 1, 'communitiesCount': 4, 'clusterCount': 4, 'largeCommunitiesCount': 12, 'extCommunitiesCount': 8}[spec.name]
+            unit = Sweep.unit(spec)
             for n in count_values(spec, limit, unit, tier):
                 ent = ('api',) if (spec.slow and n > 300) else full + (('file',) if n in (limit, limit - 1) or n < 3 else ())
                 cases.append((Case(spec, spec.count(n), n, cls_of(n, limit)), ent))
@@ -518,9 +639,18 @@ def build_cases(sw: Sweep, tier: str) -> list[tuple[Case, tuple[str, ...]]]:
             vt = hex(v) if hexform else str(v)
             file_too = tier == 'thorough' or v in (limit - 1, limit, 0, 2**32, 2**64)
             cases.append((Case(spec, vt, v, cls_of(v, limit)), full + (('file',) if file_too else ())))
+        if spec.name in ('aigp', 'communityPlain'):
+            # the grammar of these two also takes 0x… : the same boundaries written in hexadecimal
+            for v in (limit - 1, limit, limit + 1):
+                cases.append((Case(spec, hex(v), v, cls_of(v, limit)), full))
+        in_brackets = re.search(r'[\[(][^\])]*\{v\}', spec.template) is not None
         for cls, vt, meaning in ODD:
             if hexform and cls == 'hex':
                 continue
+            if cls == 'empty' and in_brackets:
+                continue  # an empty text inside a bracketed list is just a shorter list
+            if cls == 'float' and spec.sess:
+                cls, meaning = 'asdot', (1 << 16) + 5  # 1.5 is the asdot notation of AS 65541
             cases.append((Case(spec, vt, meaning, cls), full + ('file',)))
     return cases
 
@@ -551,6 +681,11 @@ def lean_batch(cases: list[Case], sw: Sweep) -> dict[str, str]:
         for ln in names:
             add(f'fits {ln} {c.value}')
             add(f'enc {ln} {c.value}')
+            if ln == 'attrFlag':
+                add(f'enc {ln} {c.value & 0xEF}')
+        if c.spec.count is not None:
+            add(f'msgfits 65535 {c.value * Sweep.unit(c.spec) + 4 + 12} 4')
+            add(f'msgfits 65535 {c.value * Sweep.unit(c.spec) + 4 + 160} 4')
         for r in c.shapes:
             w = r.get('wire')
             if w is None:
@@ -623,10 +758,12 @@ def run(ctx: Ctx) -> None:
         if verdict in ('ok', 'refused'):
             ctx.nontrivial({'junk': text})
             continue
-        canon = {'field': 'structure:' + ' '.join(abstract(t) for t in text.split(' ') if t not in (';',)), 'class': cls, 'session': 'all', 'fault': verdict}
+        small = shrink_tokens(rig, kind, text, verdict) if kind in ('route', 'attributes', 'vpls') else text
+        canon = {'field': 'structure:' + culprit(kind, small), 'class': cls if small == text and kind not in ('route', 'attributes') else 'structure', 'session': 'all', 'fault': verdict}
         key = json.dumps(canon, sort_keys=True)
+        ctx.count('oracle-fail:' + verdict)
         if key not in sw.seen_fail:
-            f = Failure('text-field', canon, {'kind': kind, 'text': text, 'stream': 'junk'}, f'"{text}": {verdict}: {detail}')
+            f = Failure('text-field', canon, {'kind': kind, 'text': small, 'original': text, 'stream': 'junk'}, f'"{small}": {verdict}: {junk_outcome(rig, kind, small)[1] if small != text else detail}')
             sw.seen_fail[key] = f
             ctx.failures.append(f)
 
@@ -645,8 +782,9 @@ def run(ctx: Ctx) -> None:
             ctx.nontrivial({'soup': text})
             continue
         small = shrink_tokens(rig, 'route', text, verdict)
-        canon = {'field': 'structure:' + ' '.join(abstract(t) for t in small.split(' ')), 'class': 'token-soup', 'session': 'all', 'fault': verdict}
+        canon = {'field': 'structure:' + culprit('route', small), 'class': 'structure', 'session': 'all', 'fault': verdict}
         key = json.dumps(canon, sort_keys=True)
+        ctx.count('oracle-fail:' + verdict)
         if key not in sw.seen_fail:
             f = Failure('text-field', canon, {'kind': 'route', 'text': small, 'original': text, 'stream': 'soup'}, f'"{small}": {verdict}: {junk_outcome(rig, "route", small)[1]}')
             sw.seen_fail[key] = f
@@ -673,65 +811,80 @@ def run(ctx: Ctx) -> None:
 
 
 def aspath_counts(ctx: Ctx, sw: Sweep) -> None:
-    """n AS numbers written in one segment: segments on the wire = segSplit n, value length = asPathLen;
-    accepted <=> the value length fits the extended attribute length."""
+    """n AS numbers written in one segment.  Model: the segments on the wire are `segSplit n` (each
+    at most 255), the value takes `asPathLen` bytes.  "Can be sent on every kind of session" is decided
+    on the 4-byte form (the longer one): it must be accepted when it leaves 160 bytes for the rest of a
+    65535-byte UPDATE, must be refused when it does not even fit beside the smallest mandatory
+    attributes, and there is no verdict in between."""
     rig = sw.rig
-    ns = [0, 1, 2, 254, 255, 256, 510, 511, 600, 16000, 16256, 16300, 16400, 32000, 32639, 32640, 33000]
+    ns = [0, 1, 2, 254, 255, 256, 510, 511, 600, 8000, 16000, 16200, 16300, 16400, 32000, 32640, 33000]
     lines = []
     for n in ns:
         lines += [f'fields segsplit {n}', f'fields aspathlen 1 {n}', f'fields aspathlen 0 {n}']
     out = common.run_driver('drv_fields', lines)
+    spec = fr.FieldSpec('asPathCount', 'route', 'route 10.0.0.0/24 next-hop 1.2.3.4 as-path [ {v} ]', lambda *a: None, count=lambda n: ' '.join(str(1 + (k % 60000)) for k in range(n)))
     for i, n in enumerate(ns):
-        split = [int(x) for x in out[3 * i].split(',')] if out[3 * i] != '-' else []
-        text = 'route 10.0.0.0/24 next-hop 1.2.3.4 as-path [ ' + ' '.join(str(1 + (k % 60000)) for k in range(n)) + ' ]'
-        res = run_entries(rig, 'route', text, ('text', 'api', 'handler'))
+        want_split = [int(x) for x in out[3 * i].split(',')] if out[3 * i] != '-' else []
+        len4, len2 = int(out[3 * i + 1]), int(out[3 * i + 2])
+        must_accept = len4 + 4 + 23 + 4 + 160 <= 65535
+        must_refuse = len4 + 4 + 23 + 4 + 12 > 65535
+        case = Case(spec, spec.count(n), n, 'in-range' if must_accept else ('over-range' if must_refuse else 'room-depends-on-session'), 'count')
+        res = run_entries(rig, 'route', case.text, ('text', 'api', 'handler'))
+        case.out = res
         ctx.evaluations += 1
         ctx.count('aspath-count')
-        spec = fr.FieldSpec('asPathCount', 'route', 'route 10.0.0.0/24 next-hop 1.2.3.4 as-path [ {v} ]', lambda *a: None)
-        case = Case.__new__(Case)
-        case.spec, case.vtext, case.value, case.cls, case.text, case.out, case.shapes, case.origin = spec, '', n, '', text[:100] + '…', res, [], 'count'
-        for name, o in res.items():
-            if name != 'handler' and o.status == 'raised':
-                case.cls = 'count'
-                sw.fail(case, 'all', 'raises', f'as-path with {n} AS numbers: {name} raised {o.detail}')
+        bad = [(name, sw.st(res, name)) for name in res if sw.st(res, name) in ('raised', 'hangs')]
+        if bad:
+            name = bad[0][0]
+            sw.fail(case, 'all', 'raises' if bad[0][1] == 'raised' else 'hangs', f'as-path with {n} AS numbers: {name}: {res[name][2] if name == "handler" else res[name].detail}')
+            continue
         routes = accepted_routes(res)
         if routes is None:
-            # refusing is right only when no session can carry it
-            if int(out[3 * i + 2]) + 0 <= 65535 and n > 0:
-                case.cls = 'in-range'
-                sw.fail(case, 'all', 'refused-fits', f'as-path with {n} AS numbers refused although it fits (2-byte session value length {out[3 * i + 2]})')
+            if must_accept and n > 0:
+                sw.fail(case, 'all', 'refused-fits', f'as-path with {n} AS numbers ({len4} bytes with 4-byte AS numbers) refused although it can be sent on every session')
+            elif n > 0:
+                ctx.count('agree:refused-unfit')
             continue
+        results = []
         for sh in rig.shapes[::2]:
-            want_len = int(out[3 * i + 1] if sh.asn4 else out[3 * i + 2])
-            k = n + (0 if sh.ibgp else 1)  # eBGP prepends the local AS into the first segment
             try:
                 msgs = rig.encode(sh, routes)
             except Exception as e:  # noqa: BLE001
-                fitsit = (want_len + (0 if sh.ibgp else (4 if sh.asn4 else 2))) <= 65535
-                case.cls = 'in-range' if fitsit else 'over-range'
-                sw.fail(case, sh.kind, 'accepted-unfit' if not fitsit else 'encode-raises', f'as-path with {n} AS numbers (value length {want_len}) accepted; messages() raises {fr._exc(e)} on {sh.name}')
+                results.append((sh, 'raises', fr._exc(e)))
                 continue
             if not msgs:
-                fitsit = (want_len + (0 if sh.ibgp else (4 if sh.asn4 else 2))) <= 65535
-                case.cls = 'in-range' if fitsit else 'over-range'
-                sw.fail(case, sh.kind, 'nothing-sent', f'as-path with {n} AS numbers (value length {want_len}) accepted; messages() yields no UPDATE at all on {sh.name} (size {sh.size})')
+                results.append((sh, 'nothing', ''))
                 continue
             wd, attrs, nlri = fr.split_update(msgs[0][19:])
             v = fr.attr(attrs, 2)
-            segs = fr.path_segments(v, 4 if sh.asn4 else 2) if v else []
-            got = [len(es) for t, es in segs]
-            # the model splits n; with the prepended AS the first written segment has n+1
-            lines2 = common.run_driver('drv_fields', [f'fields segsplit {k}'])[0]
-            want = [int(x) for x in lines2.split(',')] if lines2 != '-' else []
-            if any(x > 255 or x == 0 for x in got) or sum(got) != k:
-                case.cls = 'in-range'
-                sw.fail(case, sh.kind, 'value-differs', f'as-path with {n} AS numbers sent as segments {got[:6]}…')
-            elif got != want and len(ctx.disagreements) < 20:
-                ctx.disagreements.append(Disagreement('fields-segsplit', {'n': k, 'shape': sh.name}, want, got))
+            got = [len(es) for t, es in fr.path_segments(v, 4 if sh.asn4 else 2)] if v else []
+            results.append((sh, 'sent', got))
+        raised = [r for r in results if r[1] == 'raises']
+        nothing65 = [r for r in results if r[1] == 'nothing' and r[0].size == 65535]
+        ctx.count('dropped-on-small-session(C09)', sum(1 for r in results if r[1] == 'nothing' and r[0].size != 65535))
+        if raised:
+            sh, _, exc = raised[0]
+            kinds = {r[0].kind for r in raised}
+            sw.fail(case, 'all' if len(kinds) == 2 else kinds.pop(), 'accepted-unfit' if not must_accept else 'encode-raises', f'as-path with {n} AS numbers ({len4} / {len2} bytes with 4- / 2-byte AS numbers) accepted; messages() raises {exc} on {sh.name}')
+            continue
+        if nothing65 and (must_refuse or must_accept):
+            sh = nothing65[0][0]
+            kinds = {r[0].kind for r in nothing65}
+            sw.fail(case, 'all' if len(kinds) == 2 else kinds.pop(), 'accepted-unfit' if must_refuse else 'nothing-sent', f'as-path with {n} AS numbers ({len4} / {len2} bytes) accepted; no UPDATE at all is produced for it on {sh.name}: silently dropped')
+            continue
+        wrong = [r for r in results if r[1] == 'sent' and n > 0 and (any(x > 255 or x == 0 for x in r[2]) or sum(r[2]) != n)]
+        if wrong:
+            sw.fail(case, 'all', 'value-differs', f'as-path with {n} AS numbers sent as segments {wrong[0][2][:6]}… on {wrong[0][0].name}')
+            continue
+        for sh, what, got in results:
+            if what != 'sent' or n == 0:
+                continue
+            if got != want_split:
+                if len(ctx.disagreements) < 20:
+                    ctx.disagreements.append(Disagreement('fields-segsplit', {'n': n, 'shape': sh.name}, want_split, got))
             else:
                 ctx.count('agree:segsplit')
                 ctx.nontrivial({'aspath-count': n, 'asn4': sh.asn4, 'ibgp': sh.ibgp})
-    _ = split
 
 
 def history_cases(ctx: Ctx, sw: Sweep) -> None:
